@@ -626,6 +626,40 @@ func planC13(tier string, seed int64) (*core.Plan, error) {
 				}
 				return ops[r.Intn(4)]
 			}
+			// rows that hold nothing but their keys: every expression that steps through a container
+			// of the row meets no data there - for every list and every leaf below it, whatever the seed
+			for _, ct := range coverTrees(f, r) {
+				stored := bareRows(f, ct)
+				for i := range f.DS {
+					ln := &f.DS[i]
+					if ln.Kind != "list" {
+						continue
+					}
+					var lp abs.Path
+					for _, cp := range stored.Cont {
+						if !cp.IsEntry() && strings.Join(cp.SPath(), "/") == strings.Join(ln.SP, "/") {
+							lp = cp
+							break
+						}
+					}
+					if lp == nil {
+						continue
+					}
+					for j := range f.DS {
+						leaf := &f.DS[j]
+						if (leaf.Kind != "leaf" && leaf.Kind != "leaflist") || len(leaf.SP) < len(ln.SP)+2 ||
+							strings.Join(leaf.SP[:len(ln.SP)], "/") != strings.Join(ln.SP, "/") {
+							continue
+						}
+						rel := strings.Join(leaf.SP[len(ln.SP):], "/")
+						for k, x := range []string{rel, rel + "='u'", rel + ">1", rel + "!=''"} {
+							c := core.Case{"kind": "req", "fixture": fname, "store": stores[(i+j+k)%len(stores)], "tree": stored, "at": lp,
+								"req": "xpath", "shape": "pathological", "what": "bare-row-path", "op": []string{"where", "filter"}[k%2], "text": x}
+							emit(c)
+						}
+					}
+				}
+			}
 			for ti := 0; ti < nTrees; ti++ {
 				t := g.Subtree(abs.Path{})
 				stored := g.Subtree(abs.Path{})
